@@ -44,4 +44,35 @@ CONTRACT(PRE_dt_tdiff_ns(t1, t2), POST_dt_tdiff_ns(RV, t1, t2));
 #define POST_dt_tcmp(ret, t1, t2) ((ret) == (TKEY(t1) < TKEY(t2) ? -1 : TKEY(t1) > TKEY(t2) ? 1 : 0))
 int dt_tcmp(struct dt_t_s t1, struct dt_t_s t2)
 CONTRACT(PRE_dt_tcmp(t1, t2), POST_dt_tcmp(RV, t1, t2));
+
+#if defined VERIF_TU_TIME_CORE && !defined VERIF_NATIVE
+/* C09: the 12-hour clock round-trips.  For every hour 0..23 and both letter cases: what the real printer emits for %I and for
+ * %p / %P, read back by the real AM/PM parser and assembled by the real __guess_ttyp(), is the hour we started from.  The digits
+ * of %I are bridged by the number round trip proved in lib/strops.c (L_rt_num: strtoi_lim inverts ui99topstr); here they
+ * are decoded by hand and checked to be in the range 1..12 that the parser accepts. */
+static void L_rt_ampm(unsigned h, unsigned cap)
+{
+	__CPROVER_assume(h < 24 && cap <= 1);
+	struct dt_t_s t = {DT_HMS};
+	struct strpt_s d = {0};
+	struct dt_spec_s sI = {0}, sp = {0};
+	char bI[4] = {0, 0, 0, 0}, bp[4] = {0, 0, 0, 0};
+	d.h = (int)h;
+	sI.spfl = DT_SPFL_N_HOUR; sI.sc12 = 1;
+	sp.spfl = DT_SPFL_S_AMPM; sp.cap = cap;
+	size_t nI = __strft_card(bI, 3, sI, &d, t);
+	size_t np = __strft_card(bp, 3, sp, &d, t);
+	__CPROVER_assert(nI == 2 && bI[0] >= '0' && bI[0] <= '9' && bI[1] >= '0' && bI[1] <= '9', "L_rt_ampm: %I prints two digits");
+	int v = (bI[0] - '0') * 10 + (bI[1] - '0');
+	__CPROVER_assert(v >= 1 && v <= 12, "L_rt_ampm: %I prints 01..12");
+	__CPROVER_assert(np == 2, "L_rt_ampm: %p prints two letters");
+	struct strpt_s q = {0};
+	char *ep = NULL;
+	q.h = v; q.flags.h_set = 1;
+	int rc = __strpt_card(&q, bp, sp, &ep);
+	__CPROVER_assert(rc >= 0 && ep == bp + 2, "L_rt_ampm: the AM/PM parser accepts what the printer wrote and consumes it");
+	struct dt_t_s r = __guess_ttyp(q);
+	__CPROVER_assert(r.typ == DT_HMS && r.hms.h == h, "L_rt_ampm: 12-hour clock + AM/PM read back gives the original hour");
+}
+#endif
 #endif
